@@ -169,13 +169,9 @@ def make(cfg):
             msg = 'verification step raised %s: %s' % (type(e).__name__, e)
             raise Violation(msg, detail('call-succeeds', msg))
         res = oracle.Result.of(out)
-        should = SymBool(OPS[op](want_score, t.t))
         present = len(res.rows) > 0
-        if present != bool(should):
-            msg = 'pair with sizes (n, m, overlap) is %s although its %s score %s the threshold' % (
-                'returned' if present else 'not returned', measure, 'satisfies' if not present else 'does not satisfy')
-            raise Violation('%s/verify: %s' % (cfg['props'][0], msg), detail('verify-decision', msg))
         if present:
+            # the emitted score first (a query without the threshold), then the decision
             sc = res.rows[0][-1]
             sct = sc.t if isinstance(sc, fp.SymFP) else fp.lift(sc)
             if not (isinstance(sc, fp.SymFP) and z3.simplify(sct).eq(z3.simplify(want_score))):
@@ -183,6 +179,11 @@ def make(cfg):
                     msg = 'the reported _sim_score is not the %s similarity%s' % (
                         measure, ' rounded to 4 decimals' if measure != 'OVERLAP_COEFFICIENT' else '')
                     raise Violation('%s/verify-score: %s' % (cfg['props'][0], msg), detail('verify-score', msg))
+        should = SymBool(OPS[op](want_score, t.t))
+        if present != bool(should):
+            msg = 'pair with sizes (n, m, overlap) is %s although its %s score %s the threshold' % (
+                'returned' if present else 'not returned', measure, 'satisfies' if not present else 'does not satisfy')
+            raise Violation('%s/verify: %s' % (cfg['props'][0], msg), detail('verify-decision', msg))
         return {'nontrivial': True, 'tags': ['present=%r' % present], 'sample': None}
 
     return h
